@@ -44,7 +44,11 @@ func genC02(seed uint64, tier string) *Plan {
 	u := genUniverse(r)
 	p := &Plan{Prop: "C02", Seed: seed, World: "S"}
 	p.Cfg.CoalesceNanos = int64(time.Millisecond)
-	p.Cfg.VirtualTime = r.Bool(0.3)
+	// the virtual clock is volatile (after a restart it only reflects the
+	// points that were re-processed), so the window of every query would depend
+	// on where the crash happened: crash recovery is checked with the real
+	// (simulated) clock only
+	_ = r.Bool(0.3)
 	p.Cfg.Extra = map[string]int64{}
 	p.Tables = genSchema(r, u, SchemaOpts{MaxTables: 2, AllowView: true, RetMin: 40 * time.Minute, RetMax: 3 * time.Hour})
 	// flush latencies that make timer-driven flushes likely
